@@ -80,6 +80,11 @@ func (f *Frame) instr(ins ssa.Instruction, st *State) bool {
 				f.fail("store of non-first-class value %s", x.Val.Name())
 			}
 		}
+		if lv.Kind == lvCell && isContextType(x.Val.Type()) && un.eng.specFuns["has_logger"] != nil {
+			// invariant of captured context variables (A-LOGGER, narrowed): what is stored in one carries the logger; assumed at every load
+			un.eng.declareUF("has_logger", []Sort{v.T.Sort}, SBool)
+			f.safety(st, "ctxcell", x, mk(SBool, "uf_has_logger", v.T))
+		}
 		un.writeLV(lv, st, v.T)
 	case *ssa.UnOp:
 		f.unop(x, st)
@@ -344,6 +349,10 @@ func (f *Frame) unop(x *ssa.UnOp, st *State) {
 		f.needLock(g, 1, st, x, "read of "+lvDesc(lv))
 		v := un.define(x.Name(), un.readLV(lv, st))
 		un.assume(st, un.typeFacts(x.Type(), v, st, 0))
+		if lv.Kind == lvCell && isContextType(x.Type()) && un.eng.specFuns["has_logger"] != nil {
+			un.eng.declareUF("has_logger", []Sort{v.Sort}, SBool)
+			un.assume(st, mk(SBool, "uf_has_logger", v))
+		}
 		f.vals[x] = Val{T: v, Go: x.Type(), G: g}
 	case token.NOT:
 		f.vals[x] = Val{T: Not(f.term(x.X, st)), Go: x.Type()}
@@ -942,6 +951,21 @@ func (f *Frame) needLock(g *guard, level int, st *State, at ssa.Instruction, wha
 		need = "exclusive"
 	}
 	un.oblige(st, "guard", what+": "+g.what+" needs the "+need+" lock", pos, goal, false)
+	// Check-then-act across a lock release (the one interleaving fact the lock discipline can express): a guarded map that was
+	// looked up in an EARLIER critical section of this call -- the lock has been released since, so another goroutine may have
+	// changed the map -- must be looked up again in the current critical section before it is updated (double-checked
+	// locking). $ep: number of acquisitions of the lock so far; $rd: the critical section of the last lookup (0: none).
+	if strings.HasPrefix(what, "map ") && !strings.HasPrefix(g.heap, "$") && lockAcquisitions(f.fn, g.what) >= 2 {
+		en, rn := "$ep_"+g.heap, "$rd_"+sanitize(g.what)
+		ep := Select(un.H(st, en, ArrSort(SInt, SInt)), g.key)
+		rh := un.H(st, rn, ArrSort(SInt, SInt))
+		if level == 2 {
+			rd := Select(rh, g.key)
+			un.oblige(st, "guard", what+": "+g.what+" was looked up in an earlier critical section (the lock has been released since) and not again in this one", pos,
+				Or(Eq(rd, IntLit(0)), Eq(rd, ep)), false)
+		}
+		un.setH(st, rn, Store(rh, g.key, ep))
+	}
 }
 
 func lvDesc(lv *LVal) string {
@@ -1041,4 +1065,57 @@ func (f *Frame) runGhostHooks(event string, extra map[string]Val, st *State) {
 			}
 		}
 	}
+}
+
+var lockAcqMemo = map[string]int{}
+
+// lockAcquisitions: number of Lock/RLock call sites in fn on the mutex field that guards the location described by what
+// ("T.field (guarded by mtx)"); a function with a single critical section of that lock cannot act on a stale lookup.
+func lockAcquisitions(fn *ssa.Function, what string) int {
+	i := strings.Index(what, " (guarded by ")
+	if i < 0 {
+		return 2
+	}
+	tf := what[:i]
+	d := strings.LastIndex(tf, ".")
+	if d < 0 {
+		return 2
+	}
+	want := tf[:d] + "." + strings.TrimSuffix(what[i+len(" (guarded by "):], ")")
+	mk := fn.String() + "|" + want
+	if n, ok := lockAcqMemo[mk]; ok {
+		return n
+	}
+	n := 0
+	for _, b := range fn.Blocks {
+		for _, ins := range b.Instrs {
+			c, ok := ins.(ssa.CallInstruction)
+			if !ok {
+				continue
+			}
+			cf := c.Common().StaticCallee()
+			if cf == nil || len(c.Common().Args) == 0 {
+				continue
+			}
+			s := cf.String()
+			if s != "(*sync.Mutex).Lock" && s != "(*sync.RWMutex).Lock" && s != "(*sync.RWMutex).RLock" {
+				continue
+			}
+			fa, ok := c.Common().Args[0].(*ssa.FieldAddr)
+			if !ok {
+				n++ // a mutex reached some other way: counted, to stay on the cautious side
+				continue
+			}
+			T, st := derefStruct(fa.X.Type())
+			if st == nil {
+				n++
+				continue
+			}
+			if TypeKey(T)+"."+st.Field(fa.Field).Name() == want {
+				n++
+			}
+		}
+	}
+	lockAcqMemo[mk] = n
+	return n
 }
